@@ -163,8 +163,8 @@ func (u urlSpec) authorityForm() bool {
 // Written with its '/', it is the network-path form above; written without, its text starts with
 // the '/' of the second segment and the join does not add another one.
 func (u urlSpec) firstSegEmpty() bool {
-	if !u.Relative || len(u.Segs) < 2 {
-		return false
+	if !u.Relative || len(u.Segs) == 0 || (len(u.Segs) == 1 && !u.NoSlash) {
+		return false // (a single segment written without '/' that renders empty leaves an empty reference: joined without '/')
 	}
 	for _, t := range u.Segs[0] {
 		s := t.Lit
